@@ -47,6 +47,7 @@
 #include <AIToolbox/MDP/Algorithms/DoubleQLearning.hpp>
 #include <AIToolbox/MDP/Algorithms/DynaQ.hpp>
 #include <AIToolbox/MDP/Policies/RandomPolicy.hpp>
+#include <AIToolbox/MDP/Policies/Policy.hpp>
 #include <AIToolbox/POMDP/Algorithms/rPOMCP.hpp>
 #include <AIToolbox/POMDP/Algorithms/Utils/BeliefGenerator.hpp>
 #include <AIToolbox/POMDP/Algorithms/Utils/Projecter.hpp>
@@ -233,9 +234,9 @@ static std::vector<Subject> subjects() {
         A::POMDP::GapMin s(0.01, 3);
         A::Verif::anytimeObserver = [](const A::Verif::AnytimeSnapshot & sn) { return sn.iteration < 3; };
         auto run = [&](uint64_t seed, int extra) { auto p = pomdpOf(seed, extra); auto m = toDense(p); A::Vector b = A::Vector::Constant(p.S, 1.0 / p.S); return s(m, b); };
-        if (mode == 1) run(ps ^ 0xABCDEF, 1);
+        if (mode == 1) run(ps ^ 0xABCDEF, 0);   // another problem of the small size class (usually other sizes): one size up, single GapMin iterations can take minutes under ASan
         if (mode == 2) run(ps, 0);
-        if (mode == 3) { auto p3 = pomdpLike(ps); auto m3 = toDense(p3); A::Vector b3 = A::Vector::Constant(p3.S, 1.0 / p3.S); s(m3, b3); }
+        // mode 3 (same-size other problem) is not run for GapMin: under ASan some random POMDPs take minutes per iteration (see C03)
         auto [lb, ub, vl, q] = run(ps, 0);
         A::Verif::anytimeObserver = nullptr;
         Out o; o.push_back(lb); o.push_back(ub); flat(o, vl); flat(o, q); return o; }});
@@ -294,6 +295,7 @@ static std::vector<Subject> subjects() {
         auto use = [&](A::POMDP::VList l) { auto e = pr(std::begin(l), std::end(l), A::POMDP::unwrap); l.erase(e, std::end(l)); return l; };
         if (mode == 1 || mode == 3) use(vlistOf(ps ^ 0xABCDEF, S, 0));
         if (mode == 2) use(vlistOf(ps, S, scale));
+        if (mode == 4) { auto big = vlistOf(ps ^ 0xABCDEF, S, 0); for (auto & e : big) e.values *= 1073741824.0; use(big); }   // everything at 2^30: WitnessLP picks a row scale
         auto kept = use(vlistOf(ps, S, scale));
         Out o; flat(o, kept); return o; }; };
     v.push_back({"Pruner", true, prunerSubject(0)});
@@ -321,6 +323,7 @@ static std::vector<Subject> subjects() {
             return o; };
         if (mode == 1 || mode == 3) use(vlistOf(ps ^ 0xABCDEF, S, 0));
         if (mode == 2) use(vlistOf(ps, S, 0));
+        if (mode == 4) { auto big = vlistOf(ps ^ 0xABCDEF, S, 0); for (auto & e : big) e.values *= 1073741824.0; use(big); }
         return use(vlistOf(ps, S, 0)); }});
     // SARSOP is not a subject here: under ASan it does not finish within the per-case budget (and does not converge at all on
     // several small problems, see DESIGN §12); its anytime loop is exercised by C03 through the iteration-budget hook.
@@ -387,12 +390,29 @@ static std::vector<Stepper> steppers() {
         return wrapObj(l, [t, ps](A::MDP::DynaQ<A::MDP::Model> & q, int k) { Rng r(ps ^ (uint64_t)(k + 1)); size_t s = 0;
             for (int i = 0; i < 10; ++i) { size_t a = r.below(t.A), s1 = r.below(t.S); q.stepUpdateQ(s, a, s1, dyadicReward(r)); q.batchUpdateQ(); s = s1; }
             Out o; flat(o, q.getQFunction()); return o; }, m, true); }});
-    v.push_back({"MDP::Policies::sampleAction", true, 3, [](uint64_t ps) {
-        struct Pack { A::MDP::QFunction q; A::MDP::QGreedyPolicy g; A::MDP::EpsilonPolicy e; A::MDP::QSoftmaxPolicy sm; A::MDP::RandomPolicy rp;
-                      Pack(A::MDP::QFunction qq, size_t S, size_t Ac) : q(std::move(qq)), g(q), e(g, 0.5), sm(q, 1.0), rp(S, Ac) {} Pack(const Pack &) = delete; };
-        auto t = mdpOf(ps); Rng r(ps ^ 3); A::MDP::QFunction q(t.S, 4); for (size_t s = 0; s < t.S; ++s) for (size_t a = 0; a < 4; ++a) q(s, a) = (double)r.below(2);   // many exact ties: greedy draws
-        auto pk = std::make_shared<Pack>(q, t.S, 4);
-        return wrapObj(pk, [t](Pack & p, int k) { Out o; for (int i = 0; i < 16; ++i) { size_t s = (i + k) % t.S; o.push_back((double)p.g.sampleAction(s)); o.push_back((double)p.e.sampleAction(s)); o.push_back((double)p.sm.sampleAction(s)); o.push_back((double)p.rp.sampleAction(s)); } return o; }); }});
+    // one engine per stepper: a stream that differs because ANOTHER policy in the same subject is seeded would hide an unseeded one
+    auto tieQ = [](uint64_t ps, size_t S) { Rng r(ps ^ 3); A::MDP::QFunction q(S, 4); for (size_t s = 0; s < S; ++s) for (size_t a = 0; a < 4; ++a) q(s, a) = (double)r.below(2); return q; };   // many exact ties: greedy draws
+    v.push_back({"MDP::QGreedyPolicy::sampleAction", true, 3, [tieQ](uint64_t ps) {
+        struct Pack { A::MDP::QFunction q; A::MDP::QGreedyPolicy g; Pack(A::MDP::QFunction qq) : q(std::move(qq)), g(q) {} Pack(const Pack &) = delete; };
+        auto t = mdpOf(ps); A::MDP::QFunction q = A::MDP::QFunction::Zero(t.S, 4);   // all tied: every draw is a uniform pick
+        auto pk = std::make_shared<Pack>(q);
+        return wrapObj(pk, [t](Pack & p, int k) { Out o; for (int i = 0; i < 32; ++i) o.push_back((double)p.g.sampleAction((i + k) % t.S)); return o; }); }});
+    v.push_back({"MDP::QSoftmaxPolicy::sampleAction", true, 3, [tieQ](uint64_t ps) {
+        struct Pack { A::MDP::QFunction q; A::MDP::QSoftmaxPolicy g; Pack(A::MDP::QFunction qq) : q(std::move(qq)), g(q, 1.0) {} Pack(const Pack &) = delete; };
+        auto t = mdpOf(ps); auto pk = std::make_shared<Pack>(tieQ(ps, t.S));
+        return wrapObj(pk, [t](Pack & p, int k) { Out o; for (int i = 0; i < 32; ++i) o.push_back((double)p.g.sampleAction((i + k) % t.S)); return o; }); }});
+    v.push_back({"MDP::EpsilonPolicy(QGreedy)::sampleAction", false, 3, [tieQ](uint64_t ps) {
+        struct Pack { A::MDP::QFunction q; A::MDP::QGreedyPolicy g; A::MDP::EpsilonPolicy e; Pack(A::MDP::QFunction qq) : q(std::move(qq)), g(q), e(g, 0.5) {} Pack(const Pack &) = delete; };
+        auto t = mdpOf(ps); auto pk = std::make_shared<Pack>(tieQ(ps, t.S));
+        return wrapObj(pk, [t](Pack & p, int k) { Out o; for (int i = 0; i < 32; ++i) o.push_back((double)p.e.sampleAction((i + k) % t.S)); return o; }); }});
+    v.push_back({"MDP::RandomPolicy::sampleAction", true, 3, [](uint64_t ps) {
+        auto t = mdpOf(ps); auto pk = std::make_shared<A::MDP::RandomPolicy>(t.S, 4);
+        return wrapObj(pk, [t](A::MDP::RandomPolicy & p, int k) { Out o; for (int i = 0; i < 32; ++i) o.push_back((double)p.sampleAction((i + k) % t.S)); return o; }); }});
+    v.push_back({"MDP::Policy(matrix)::sampleAction", true, 3, [](uint64_t ps) {
+        auto t = mdpOf(ps); auto pk = std::make_shared<A::MDP::Policy>(t.S, 4);    // uniform policy table
+        // MDP::Policy's hand-written copy constructor builds a NEW PolicyInterface base (draws a fresh seed): a copy is a newly created
+        // object, not a replica of the engine state — by design, so the copy scenarios (which expect a replica) are skipped
+        return wrapObj(pk, [t](A::MDP::Policy & p, int k) { Out o; for (int i = 0; i < 32; ++i) o.push_back((double)p.sampleAction((i + k) % t.S)); return o; }, nullptr, true); }});
     v.push_back({"MCTS", false, 2, [](uint64_t ps) {
         auto t = mdpOf(ps); auto m = std::make_shared<A::MDP::Model>(toDense(t));
         auto s = std::make_shared<A::MDP::MCTS<A::MDP::Model>>(*m, 40, 2.0);
@@ -510,6 +530,11 @@ void verif::verif_case(Rng & rng, long idx, const std::string &) {
         emit(sj.name, "reuse_same_problem", a, d2);
         A::Seeder::setRootSeed(root); Out d3 = sj.run(ps, 3);
         emit(sj.name, "reuse_same_size_other_problem", a, d3);
+        if (!std::strncmp(sj.name, "Pruner", 6) || !std::strncmp(sj.name, "WitnessLP", 9)) {
+            // the LP wrapper keeps a row scale chosen from the first row it sees (magnitudes above 2^16): reset() must forget it
+            A::Seeder::setRootSeed(root); Out d4 = sj.run(ps, 4);
+            emit(sj.name, "reuse_after_other_magnitude", a, d4);
+        }
     }
     if (g_stepOf[idx % g_subj.size()] >= 0) {
         const Stepper & st = g_step[g_stepOf[idx % g_subj.size()]];
